@@ -34,12 +34,18 @@ checks = {
  "C19": dict(cat="model_checking", engine="vsched+explore", tech=MC, ref="DESIGN.md §5 C19, Appendix A.5",
    text="same composed executions as C01 incl. the filter variant; after the stop of every generation the registries are gathered and the balance equations checked: input passed+dropped = lines (count and bytes), pipeline passed+dropped = input passed, dropped = filter matches = labelled{filtered}, per key set attribution, buffer input = consumed+leftover+dropped+pending, persistent gauge = files, leftover+pending = files, acknowledged = consumed, forwarded/acknowledged <= what the upstream saw",
    note="as C01; equations from metric help strings and DESIGN Appendix A.5"),
+ "C06": dict(cat="exploration", engine="seq", tech=SEQ + " (all ordered pairs of key tuples over a 10-value alphabet incl. empty string and separators)", ref="DESIGN.md §5 C06",
+   text="real byKeySet orchestrator with real pipelines and hybrid buffers on a scratch root and a capturing consumer; all tuples over {'', a, b, ab, ',', 'a,', '.', '/', NUL, e-acute} for 1-2 key fields (quick) / 3 (thorough); for every ordered pair of distinct tuples one record each, both arrival orders, one and two connections, 4 tag templates; then Shutdown and a second orchestrator through StartOrchestrator on the same root; oracles: different pipelines/chunks/queue directories, tag = reference expansion of the template on the record's own tuple, queued chunks reattached at startup to the pipeline of the tuple that produced them",
+   note="buffer channel size and message limit scaled down for allocation cost only; tags need not be injective (compared with the reference expander)"),
  "C09": dict(cat="exploration", engine="seq", tech=SEQ, ref="DESIGN.md §5 C09, Appendix A.2",
    text="all PRI 0..191 x level mappings x schemas, out-of-range PRI menu, full product of header token menus (8^6 quick / 12^6 thorough), message bodies around the message and record limits x rune classes, histories of mixed lines; oracle: reference parser, facility/level mapping, truncation prefix/UTF-8/overflow count, exact passed+dropped accounting (count and bytes)",
    note="limits scaled down in one variant and shipped limits in another; see harness/seq_parse/README.md for tolerances"),
  "C14": dict(cat="exploration", engine="seq", tech=SEQ, ref="DESIGN.md §5 C14, Appendix A.3",
    text="all strings over {a,1,.,@,/,-,space,e-acute} up to 7 symbols (quick) / 9 (thorough) plus planted-address menu at every position and adjacency; oracles: every byte of every core address inside a redacted span, only address-character spans containing '@' replaced, text without a supported address unchanged and uncounted",
    note="shapes outside the documented core (local part ending in . - _, empty labels) tolerated either way; see harness/seq_redact/README.md"),
+ "C12": dict(cat="exploration", engine="seq", tech=SEQ + " (differential: each record alone on a fresh pipeline vs. after every sequence of other records on a long-lived one)", ref="DESIGN.md §5 C12",
+   text="14 record shapes (short, pooled-size, optional fields absent, escaped, multi-line, truncate / mapValue / addFields / redactEmail triggers); all sequences with repetition of length <=3 (quick) / <=4 (thorough) on one long-lived pipeline vs each record alone on a fresh one; outputs fluentd, fluentd+fluentd, fluentd+datadog, datadog; three feeding modes incl. two connections alternating; pooling verified in effect by pointer identity (vacuity guard); oracle: decoded output per record identical in both runs for each output, and identical across identical outputs",
+   note="the stage behind the parser sink repeats LogProcessingWorker.onInput rather than running the worker goroutine (the concurrent part is covered by the composed model-checking harness); contamination inside one record is invisible to the differential oracle"),
  "C13": dict(cat="exploration", engine="seq", tech="bounded-exhaustive enumeration of inputs against an independent integer reference model (all fractions up to 6/9 digits, all offsets, all short strings over a 9-symbol alphabet, all one-edit neighbours)", ref="DESIGN.md §5 C13",
    text="complete enumeration of the stated finite input domains through the exported parseTime transform; exactness to the nanosecond against days-from-civil integer arithmetic; totality (no panic) and error+count+fallback for strings not shaped like a date-time",
    note="valid timestamps outside the enumerated date/offset/fraction grid are not covered; leap second and non-digit digit positions only checked for totality"),
